@@ -103,3 +103,47 @@ prop("C08", run="^TestC08", level="exploration",
      text="Round-trip and cross-decoding exploration of both compressors in both formats across size and compressibility classes.",
      note="Trusted: ref.LZ4DecodeBlock, ref.SnappyDecodeBlock and the two reference encoders. Open finding DEP-lz4-offset-wrap-65536 excluded on the exact emitted block.",
      technique="property-based testing (rapid): round trip + differential against independent LZ4/Snappy block codecs", design="DESIGN.md 4 C08")
+
+VALUE_GEN = ("(CQL type tree: 20 scalars + custom + list/set/map/tuple/UDT nested to depth 2 (thorough 4), width <= 4, gated by version) x protocol version x a Go representation drawn per node from the datacodec doc.go table "
+             "(sized ints/uints, *big.Int, string, []byte, []rune, bool, floats, *big.Float, time.Time, time.Duration, net.IP, UUID, [16]byte, CqlDecimal, CqlDuration, slices/arrays/maps/structs built with reflect, "
+             "map[string]interface{}, []interface{}, pointers and interface{} wrappers) x a boundary-biased abstract value the representation can hold exactly (the documented lossless domain), nulls at nillable nested positions from v3")
+
+prop("C11", run="^TestC11", level="exploration",
+     quick=(16, 6000, 900), thorough=(16, 150000, 7200),
+     rule=VALUE_GEN + "; oracle: Encode succeeds, Decode into a fresh value of the same representation succeeds with wasNull=false and reads back (type-directed, through pointers/interfaces) to the same abstract value; "
+          "decode into *interface{} yields the same value and the documented PreferredGoType. Non-trivial = composite type or non-zero value; distinct by (type, version, representation, value)",
+     assumptions=["v2 values keep every element below 65536 bytes and carry no null elements (the format cannot express them)",
+                  "map keys: no NaN, +0/-0 identified (Go map semantics); interface{}-typed keys/fields only where the preferred Go type exists and is hashable",
+                  "pre-filled map destinations are not asserted (decoding into a non-empty Go map merges, as encoding/json does)"],
+     text="Randomised round-trip exploration over type trees x versions x every accepted Go representation x boundary values, typed and untyped destinations.",
+     note="Trusted: gen.ToGo/FromGo (representation builder/reader) and the representation table typed in from datacodec/doc.go.",
+     technique="property-based testing (rapid): round trip over constructive type/representation/value generators with reflective sources and destinations", design="DESIGN.md 4 C11, 3.5")
+
+prop("C12", run="^TestC12", level="exploration",
+     quick=(16, 5000, 900), thorough=(16, 120000, 7200),
+     rule=VALUE_GEN + "; oracle: the library's bytes are read by an independent deserializer written from spec sections 5/6 (+ v2 collection format) to the same abstract value and re-serialized to exactly the same bytes; map-free types compared byte-exact "
+          "with the independent serialization of the source value; reference bytes with generated map-entry orders must decode to the value. Decode-only spec-legal forms: boolean true as any non-zero byte, UDT values with fewer trailing fields "
+          "than the type (missing = null); the varint example table of spec 5.24 as fixed points in both directions. Non-trivial = composite or non-zero / short UDT / byte > 1; distinct by case hash",
+     assumptions=["harness/ref/value.go is trusted base (serializer + strict deserializer, ~400 lines)", "zero-length 'empty' values of non-string types have no Go denotation and are not asserted"],
+     text="Differential exploration against an independent spec-derived value serializer/deserializer in both directions.",
+     note="Trusted: ref.SerializeValue / ref.DeserializeValue typed in from native_protocol_v5.spec sections 5 and 6 and native_protocol_v2.spec section 6.",
+     technique="differential property-based testing (rapid) against a spec-derived CQL value serializer", design="DESIGN.md 4 C12, 3.6")
+
+prop("C13", run="^TestC13", level="exploration",
+     quick=(4, 20000, 600), thorough=(16, 400000, 3600),
+     rule="all 11 CQL numeric types {tinyint, smallint, int, bigint, counter, varint, date, time, timestamp, float, double} x 15 Go kinds {int..int64, uint..uint64, *big.Int, float32, float64, *big.Float, string} x both directions x value/pointer sources "
+          "x ~150 boundary values (2^k+-{0,1,2} both signs for k=0,7,8,15,16,24,31,32,53,63,64,65,100; NaN, +-Inf, MaxFloat32*2, 2^53+1, 0.1 ...) exhaustively, duration months/days/nanos beyond 32/64-bit on the wire, plus rapid-drawn integers (<=136 bits) and float bit patterns. "
+          "Oracle: arbitrary precision - success => exact (encode judged by the independent deserializer, decode by reading the destination); errors always acceptable, panics never. Non-trivial = the conversion was attempted (the Go kind / CQL type can carry the value); distinct by (CQL type, Go kind, value)",
+     assumptions=["for date/time/timestamp a Go string is a formatted date, not a number: not part of this property", "-0 and +0 are the same mathematical value"],
+     text="Exhaustive enumeration of conversion pairs at boundary values plus randomised values, judged by arbitrary-precision arithmetic.",
+     note="Trusted: math/big and ref.DeserializeValue/SerializeValue for the wire side.",
+     technique="property-based testing: exhaustive (type pair x boundary) enumeration + rapid values against a big-number oracle", design="DESIGN.md 4 C13", exhaustive_claim=False)
+
+prop("C14", run="^TestC14", level="exploration",
+     quick=(4, 15000, 600), thorough=(16, 300000, 3600),
+     rule="enumerated: 21 scalar codecs x 6 versions x every accepted nil source (untyped nil, nil pointer of every accepted type, nil slices and pointers to nil slices) -> must encode to (nil,nil); x every accepted destination type + *interface{} pre-filled non-zero -> Decode(NULL) must report wasNull, no error, zero value. "
+          "Generated (rapid): nested types x representations: nil composite sources, NULL into pre-filled composite destinations, a NULL forced at a drawn element/field position (round trip typed and untyped from v3; refusal for v2 collections). Every case is non-trivial; distinct by (codec, Go type, position)",
+     assumptions=["an empty (zero-length) byte string is not asserted to be NULL or non-NULL"],
+     text="Exhaustive enumeration of nil sources / null destinations for scalars plus randomised nested null placement.",
+     note="Trusted: gen value engine; the accepted-type table typed in from datacodec/doc.go and the codecs' type switches.",
+     technique="property-based testing: exhaustive scalar enumeration + rapid-generated nested null placement", design="DESIGN.md 4 C14")
